@@ -180,6 +180,66 @@ func checkC14(c *c14Case, rec *ev.Recorder) (fl *failure, digest string) {
 	return fl, dig.String()
 }
 
+// genMixedUniverse draws a universe whose documents are of different drafts and share a remote
+// document that declares no $schema, with constructs only one of the drafts understands. Which
+// outcome is right is not this property's business; that it is the same every time is.
+func genMixedUniverse(t *rapid.T) *ugen.Universe {
+	n := func(k int, l string) int { return rapid.IntRange(0, k-1).Draw(t, l) }
+	common := jv.ObjV()
+	defs := jv.ObjV()
+	defs.Set("a", jv.ObjV(jv.Member{K: "$anchor", V: jv.StrV("foo")}, jv.Member{K: "type", V: jv.StrV("string")}))
+	switch n(4, "commonkind") {
+	case 0:
+		defs.Set("b", jv.ObjV(jv.Member{K: "$id", V: jv.StrV("#bar")}, jv.Member{K: "type", V: jv.StrV("integer")}))
+	case 1:
+		defs.Set("b", jv.ObjV(jv.Member{K: "$dynamicAnchor", V: jv.StrV("bar")}, jv.Member{K: "type", V: jv.StrV("integer")}))
+	case 2:
+		defs.Set("b", jv.ObjV(jv.Member{K: "$anchor", V: jv.StrV("bar")}, jv.Member{K: "type", V: jv.StrV("integer")}))
+	}
+	dk := "$defs"
+	if n(3, "definitions") == 0 {
+		dk = "definitions"
+	}
+	common.Set(dk, defs)
+	if n(3, "commonitems") == 0 {
+		// `items` as an array: tuple validation in draft-07 only
+		common.Set("items", jv.ArrV(jv.ObjV(jv.Member{K: "type", V: jv.StrV("string")})))
+	}
+	targets := []string{"http://m.test/common.json#foo", "http://m.test/common.json#bar", "http://m.test/common.json", "http://m.test/common.json#/" + dk + "/a",
+		"http://m.test/d7.json", "http://m.test/d2020.json", "http://m.test/none.json", "http://m.test/d7.json#/properties/x", "http://m.test/d2020.json#/properties/x"}
+	mid := func(schemaURI string) *jv.V {
+		d := jv.ObjV()
+		if schemaURI != "" {
+			d.Set("$schema", jv.StrV(schemaURI))
+		}
+		props := jv.ObjV()
+		for i, k := 0, 1+n(3, "nmidrefs"); i < k; i++ {
+			props.Set([]string{"x", "y", "z"}[i], jv.ObjV(jv.Member{K: "$ref", V: jv.StrV(targets[n(4, "midtarget")])}))
+		}
+		d.Set("properties", props)
+		return d
+	}
+	root := jv.ObjV()
+	switch n(3, "rootschema") {
+	case 0:
+		root.Set("$schema", jv.StrV(refmodel.URI2020))
+	case 1:
+		root.Set("$schema", jv.StrV(refmodel.URI7))
+	}
+	props := jv.ObjV()
+	for i, k := 0, 2+n(5, "nrootrefs"); i < k; i++ {
+		props.Set(fmt.Sprintf("p%d", i), jv.ObjV(jv.Member{K: "$ref", V: jv.StrV(targets[n(len(targets)-1, "roottarget")])}))
+	}
+	root.Set("properties", props)
+	u := &ugen.Universe{BaseURI: "http://m.test/root.json", Root: root, Docs: map[string]*jv.V{
+		"http://m.test/common.json": common,
+		"http://m.test/d7.json":     mid(refmodel.URI7),
+		"http://m.test/d2020.json":  mid(refmodel.URI2020),
+		"http://m.test/none.json":   mid(""),
+	}}
+	return u
+}
+
 func multiEntryMaps(v *jv.V) int {
 	n := 0
 	v.Walk(func(x *jv.V) {
@@ -209,7 +269,14 @@ func TestC14(t *testing.T) {
 	caseNo := 0
 	rapid.Check(t, func(t *rapid.T) {
 		c := &c14Case{}
-		if rapid.IntRange(0, 3).Draw(t, "family") == 0 {
+		fam := rapid.IntRange(0, 7).Draw(t, "family")
+		if fam == 2 {
+			c.Family = "universe"
+			c.U = genMixedUniverse(t)
+			for i := 0; i < 3; i++ {
+				c.Instances = append(c.Instances, jv.ObjV(jv.Member{K: fmt.Sprintf("p%d", rapid.IntRange(0, 3).Draw(t, "pi")), V: jv.Gen(jv.Opts{MaxDepth: 2}).Draw(t, "inst")}))
+			}
+		} else if fam < 2 {
 			c.Family = "universe"
 			c.U = ugen.Gen(t)
 			if c.U.LoaderNil {
@@ -245,8 +312,14 @@ func TestC14(t *testing.T) {
 			c.Choices = append(c.Choices, l.Log)
 		}
 		c.Ops = []string{"resolve"}
+		mixed := fam == 2
+		rec.ClassIf(mixed, "universe:documents-of-different-drafts")
 		for i, n := 0, rapid.IntRange(2, 11).Draw(t, "nops"); i < n; i++ {
-			switch rapid.IntRange(0, 5).Draw(t, "op") {
+			k := rapid.IntRange(0, 5).Draw(t, "op")
+			if mixed && k >= 3 {
+				k = 0 // Resolve again: the order in which references are followed may be re-drawn each time
+			}
+			switch k {
 			case 0:
 				c.Ops = append(c.Ops, "resolve")
 			case 1:
